@@ -18,6 +18,7 @@ CONSTANTS
   BroadcastDedup = FALSE
   FIX_PruneEmpty = TRUE
   AllowLate = TRUE
+  TrackEvicted = FALSE
   AtomicCheck = FALSE
   FlipAccounts = {"A"}
   Self = "A"
